@@ -641,7 +641,10 @@ def equation_loops_evaluated(db, rule):
                     changed = True
         return any(v in reach.get(v, ()) for v in set(table.values()))
 
-    def run(nodes, edges, table):
+    def run(nodes, edges, table, term_edges=(), modes=None, new_refs=None):
+        modes = modes or {}
+        new_refs = new_refs or {}
+
         def on_call(it, fn, n, env):
             cs = n.get('cs') or ''
             last = cs.split('::')[-1]
@@ -662,8 +665,23 @@ def equation_loops_evaluated(db, rule):
                 return Obj(__cls__='facade', which=last)
             if last == 'Graph':
                 return graph
-            if last in ('TermGraph', 'DefGraph'):
+            if last == 'TermGraph':
+                return term_graph
+            if last == 'DefGraph':
                 return empty_graph
+            if last == 'PropsFor' and n.get('args'):
+                k_ = ev(n['args'][-1])
+                return Obj(__cls__='ccl::ops::Equation', mode=modes.get(k_, 1), arg=Obj(__kind__='newterm', refs=list(new_refs.get(k_, []))))
+            if n['k'] in ('CXXConstructExpr', 'CXXTemporaryObjectExpr', 'CXXFunctionalCastExpr') and (n.get('cls') or n.get('t') or '').endswith('ManagedText') and n.get('args'):
+                return ev(n['args'][0])
+            if last == 'Referals':
+                o = ev(n['obj']) if 'obj' in n else None
+                o = o[1] if isinstance(o, tuple) and len(o) == 2 and o[0] == 'ptr' else o
+                return set(('D%d' % u).encode() for u in (o['refs'] if isinstance(o, Obj) and 'refs' in o else []))
+            if last == 'FindAlias' and n.get('args'):
+                nm = bytes(ev(n['args'][-1])).decode()
+                u = int(nm[1:]) if nm[1:].isdigit() else None
+                return u if u in nodes else None
             if last == 'Contains' and cs.startswith(S):
                 return a()[0] in nodes
             if last == 'GetRS':
@@ -710,10 +728,14 @@ def equation_loops_evaluated(db, rule):
         it.on_range = on_range
         graph = it.default_construct(G)
         empty_graph = it.default_construct(G)
+        term_graph = it.default_construct(G)
         for u in nodes:
             it.call(db.fn(G + '::AddItem'), [u], graph)
+            it.call(db.fn(G + '::AddItem'), [u], term_graph)
         for a_, b_ in edges:
             it.call(db.fn(G + '::AddConnection'), [a_, b_], graph)
+        for a_, b_ in term_edges:
+            it.call(db.fn(G + '::AddConnection'), [a_, b_], term_graph)
         this = Obj(__cls__=EP, schema=Obj(__cls__='facade', which='form'), equations=Obj(__kind__='etr', m=dict(table)), nameSubstitutes={}, translation=Obj(__kind__='etr', m={}))
         return bool(it.call(f, [], this))
     nodes = [1, 2, 3, 4]
@@ -738,9 +760,56 @@ def equation_loops_evaluated(db, rule):
                             tb = ', '.join('D%d -> D%d' % kv for kv in table.items())
                             bad = ('with %s the table {%s} is %s; identifying each removed constituent with its replacement %s a dependency loop' % (
                                 dep, tb, 'accepted' if got else 'refused', 'closes' if not want else 'does not close'))
+        # the same for term references: after key -> value the survivor carries its own term (keepHier), the term of the removed constituent
+        # (keepDel) or a new one (createNew); a term whose references lead back to itself can no longer be resolved
+        tbad, tcases, taccepted = None, 0, 0
+        MODE = {1: 'keep the term of the replacement', 2: 'keep the term of the removed one', 3: 'new term'}
+        term_graphs = [[(2, 1), (4, 3)], [(1, 2), (3, 4)], [(1, 2)], [(2, 3), (4, 1)], [(3, 1)], []]
+        for tedges in term_graphs:
+            for r_ in (1, 2):
+                for keys in itertools.permutations(nodes, r_):
+                    for vals in itertools.product(nodes, repeat=r_):
+                        table = dict(zip(keys, vals))
+                        if any(k_ == v_ for k_, v_ in table.items()) or any(v_ in table for v_ in table.values()) or len(set(table.values())) != len(table):
+                            continue
+                        for ms in itertools.product((1, 2, 3), repeat=r_):
+                            modes = dict(zip(keys, ms))
+                            new_refs = {k_: [table[k_]] for k_ in keys if modes[k_] == 3}      # the new term mentions the survivor itself
+                            if r_ == 2 and ms[0] > ms[1]:
+                                continue
+                            tcases += 1
+                            after = []
+                            for a_, b_ in tedges:
+                                if b_ in table:
+                                    continue                                # the term of a removed constituent goes, unless it is kept by its survivor
+                                taker = [k_ for k_, v_ in table.items() if v_ == b_]
+                                if taker and modes[taker[0]] in (2, 3):
+                                    continue                                # the survivor's own term is replaced
+                                after.append((a_, b_))
+                            for k_, v_ in table.items():
+                                if modes[k_] == 2:
+                                    after += [(a_, v_) for a_, b_ in tedges if b_ == k_]
+                                elif modes[k_] == 3:
+                                    after += [(u, v_) for u in new_refs[k_]]
+                            img = lambda x: table.get(x, x)
+                            after = {(img(a_), b_) for a_, b_ in after}
+                            want = not merged_has_loop([n_ for n_ in nodes], [(a_, b_) for a_, b_ in after], {}) and not any(a_ == b_ for a_, b_ in after)
+                            got = run(nodes, [], table, term_edges=tedges, modes=modes, new_refs=new_refs)
+                            taccepted += 1 if got else 0
+                            if got and not want and tbad is None:
+                                dep = ', '.join('the term of D%d refers to D%d' % (b_, a_) for a_, b_ in tedges) or 'no term references'
+                                tb = ', '.join('D%d -> D%d (%s)' % (k_, v_, MODE[modes[k_]]) for k_, v_ in table.items())
+                                tbad = 'with %s the table {%s} is accepted; afterwards the term references are %s: a term refers to itself and cannot be resolved' % (
+                                    dep, tb, ', '.join('D%d in the term of D%d' % e_ for e_ in sorted(after)))
     except OutOfFragment as e:
         rule.broken('ResolveCstAndPrecheck outside the evaluable fragment: %s' % e)
         return
+    if tbad:
+        rule.violation('equation-table-term-loops', '%s:%d' % (f.file, f.line), tbad)
+    elif not taccepted:
+        rule.broken('the interpreted precheck accepts none of %d tables with term references: the harness no longer reflects the code' % tcases)
+    else:
+        rule.ok('equation-table-term-loops', '%d (term references, table, term modes) cases, %d accepted: no accepted table leaves a term that refers to itself' % (tcases, taccepted), '%s:%d' % (f.file, f.line))
     if bad:
         rule.violation('equation-table-loops', '%s:%d' % (f.file, f.line), bad)
     elif not accepted:
